@@ -502,3 +502,92 @@ Proof.
   intros. cbn [emit or_chain]. do 3 f_equal.
   f_equal. apply or_chain_fix.
 Qed.
+
+(* ------------------------------------------- one slot written, the rest kept *)
+Definition MAXV : nat := Z.to_nat MAX_VARS.
+Definition store (st : state) (slot : nat) (z : Z) : state := set_flag (write_slot st slot z) slot false.
+
+(* everything but [slot] is as before *)
+Definition upd (slot : nat) (st st' : state) : Prop :=
+  s_filesize st' = s_filesize st /\
+  (forall s, (s < MAXV)%nat -> s <> slot -> flag_set st' s = flag_set st s /\ slot_word st' s = slot_word st s) /\
+  (s_done st = true -> s_done st' = true) /\
+  (flags_wf st -> flags_wf st').
+
+Lemma upd_store : forall st slot z, (slot < MAXV)%nat -> upd slot st (store st slot z).
+Proof.
+  intros st slot z M. unfold store. repeat split; auto.
+  - rewrite flag_set_set_flag. replace (Nat.eqb s slot) with false by (symmetry; apply Nat.eqb_neq; assumption).
+    apply flag_set_write_slot. exact H.
+  - rewrite slot_word_set_flag by exact M. rewrite slot_word_write_slot.
+    replace (Nat.eqb s slot) with false by (symmetry; apply Nat.eqb_neq; assumption). reflexivity.
+  - intros W. apply flags_wf_set_flag, flags_wf_write_slot. exact W.
+Qed.
+Lemma keeps_upd : forall slot a b c, keeps MAXV a b -> upd slot b c -> upd slot a c.
+Proof.
+  intros slot a b c [F1 [M1 [D1 W1]]] [F2 [M2 [D2 W2]]]. repeat split; try congruence; auto.
+  - destruct (M1 s H), (M2 s H H0). congruence.
+  - destruct (M1 s H), (M2 s H H0). congruence.
+Qed.
+Lemma upd_keeps_all : forall slot a b c, upd slot a b -> keeps MAXV b c -> upd slot a c.
+Proof.
+  intros slot a b c [F1 [M1 [D1 W1]]] [F2 [M2 [D2 W2]]]. repeat split; try congruence; auto.
+  - destruct (M1 s H H0), (M2 s H). congruence.
+  - destruct (M1 s H H0), (M2 s H). congruence.
+Qed.
+Lemma upd_keeps : forall sp slot a b, upd slot a b -> (sp <= slot)%nat -> (sp <= MAXV)%nat -> keeps sp a b.
+Proof.
+  intros sp slot a b [F [M [D W]]] L Lm. repeat split; auto; apply M; lia.
+Qed.
+Lemma upd_var_ok : forall slot a b s t v, upd slot a b -> (s < MAXV)%nat -> s <> slot ->
+  var_ok a s t v -> var_ok b s t v.
+Proof.
+  intros slot a b s t v [_ [M _]] Hs Hn OK. destruct (M s Hs Hn) as [E1 E2].
+  unfold var_ok in *. destruct v; rewrite ?E1, ?E2; exact OK.
+Qed.
+Lemma keeps_var_ok : forall sp a b s t v, keeps sp a b -> (s < sp)%nat -> var_ok a s t v -> var_ok b s t v.
+Proof.
+  intros sp a b s t v [_ [M _]] Hs OK. destruct (M s Hs) as [E1 E2].
+  unfold var_ok in *. destruct v; rewrite ?E1, ?E2; exact OK.
+Qed.
+Lemma upd_wf : forall slot a b, upd slot a b -> flags_wf a -> flags_wf b.
+Proof. intros slot a b [_ [_ [_ W]]]. exact W. Qed.
+Lemma keeps_wf : forall sp a b, keeps sp a b -> flags_wf a -> flags_wf b.
+Proof. intros sp a b [_ [_ [_ W]]]. exact W. Qed.
+Lemma var_ok_store : forall st slot z, (slot < MAXV)%nat -> var_ok (store st slot z) slot TInt (VInt z).
+Proof.
+  intros st slot z M. unfold store. cbn [var_ok]. split; [reflexivity|]. split.
+  - rewrite flag_set_set_flag, Nat.eqb_refl. reflexivity.
+  - rewrite slot_word_set_flag by exact M. rewrite slot_word_write_slot, Nat.eqb_refl. reflexivity.
+Qed.
+Lemma var_ok_stack : forall st s slot t v, var_ok (set_stack st s) slot t v <-> var_ok st slot t v.
+Proof. intros. reflexivity. Qed.
+
+Lemma R_more : forall g sp sp2 en st, R g sp en st -> (sp <= sp2)%nat -> (sp2 <= MAXV)%nat -> R g sp2 en st.
+Proof.
+  intros g sp sp2 en st [Hf [Hs [Hw Hv]]] L M. repeat split; auto.
+  - destruct (Hv x slot t H). lia.
+  - destruct (Hv x slot t H). assumption.
+Qed.
+Lemma R_bind_at : forall g sp sp2 slot en st x t v,
+  R g sp en st -> (sp <= slot)%nat -> (slot < sp2)%nat -> (sp2 <= MAXV)%nat ->
+  var_ok st slot t v ->
+  R ((x, (slot, t)) :: g) sp2 (bind x v en) st.
+Proof.
+  intros g sp sp2 slot en st x t v [Hf [Hs [Hw Hv]]] L1 L2 M OK. repeat split; auto.
+  - cbn [clookup] in H. destruct (Nat.eqb x0 x); [injection H as <- <-; lia | destruct (Hv x0 slot0 t0 H); lia].
+  - cbn [clookup] in H. cbn [bind e_vars lookup]. destruct (Nat.eqb x0 x).
+    + injection H as <- <-. exact OK.
+    + destruct (Hv x0 slot0 t0 H). assumption.
+Qed.
+
+(* 64-bit counters *)
+Lemma w64_small : forall z, - m63 <= z < m63 -> w64 z = z.
+Proof. intros z H. unfold w64. rewrite Z.mod_small; unfold m63, m64 in *; lia. Qed.
+Lemma w64_succ : forall a, w64 (w64 a + 1) = w64 (a + 1).
+Proof.
+  intros a. unfold w64. f_equal.
+  replace ((a + m63) mod m64 - m63 + 1 + m63) with ((a + m63) mod m64 + 1) by lia.
+  replace (a + 1 + m63) with ((a + m63) + 1) by lia.
+  rewrite Zplus_mod_idemp_l. reflexivity.
+Qed.
